@@ -23,6 +23,7 @@ EXPLANATION = (
     'never the SDK Span; the recording edge builds the SDK Span with parent and context. C05.R5 (storage facts): the '
     'random engine and its guard object have thread storage, the engine is seeded from a non-static seed built from '
     'std::random_device in the same call; the runtime-context stack has thread storage.')
+EXPLANATION += ' C05.R2 also checks the atoms of the table: trace::IsRootSpan / trace::GetSpan return the value stored under their key (behind holds_alternative) or the default.'
 NOT_DECIDED = 'freshness / non-zero ids (the generator has no retry: probabilistic), uniqueness across threads beyond the storage facts.'
 
 P = 'P'   # parent's bit
